@@ -725,7 +725,7 @@ def _replay_search(exe, inputs, tries=450):
 # --------------------------------------------------------------------------
 TRUSTED_BASE = [
     "cbmc 6.11.0 front end, symex, goto-instrument --dfcc contract instrumentation",
-    "SAT (minisat2 built into cbmc) / cvc5 1.0 / z3-new 5.1 as named per obligation",
+    "SAT (minisat2 built into cbmc; kissat through --external-sat-solver) / cvc5 1.0 / z3 4.8.12 and z3-new 5.1 (sum-of-monomials tactic) as named per unit",
     "IEEE-754 binary32/64 round-to-nearest as modelled by cbmc; no FMA contraction, FLT_EVAL_METHOD==0",
 ]
 
@@ -824,7 +824,7 @@ def finish(prop, tier, units, t0, extra_cov=None, assumptions=(), not_covered=()
             break
     cov = {
         "obligations": n_obl, "discharged": n_dis,
-        "checker_cmd": "goto-cc --function h_X; goto-instrument --dfcc h_X --enforce-contract f [--replace-call-with-contract g] [--apply-loop-contracts]; cbmc {sat|--cvc5|--z3 --outfile + z3-new som} --json-ui (per unit, see units[].backend)",
+        "checker_cmd": "goto-cc --function h_X; goto-instrument --dfcc h_X --enforce-contract f [--replace-call-with-contract g] [--apply-loop-contracts]; cbmc {sat|kissat|--cvc5|--z3 --outfile + z3 4.8.12 / z3-new som} --json-ui (per unit, see units[].backend)",
         "trusted_base": TRUSTED_BASE,
         "functions_under_contract": fn_set,
         "units": recs,
